@@ -275,7 +275,7 @@ int main(int argc, char **argv) {
     }
     size_t next = 0, crashes = 0;
     while (next < ops.size()) {
-        if (crashes >= 60) {   // give up on a tree that crashes everywhere: still one line per op
+        if (crashes >= 40) {   // give up on a tree that crashes everywhere: still one line per op
             for (; next < ops.size(); ++next) puts("crash:skipped");
             break;
         }
@@ -286,11 +286,11 @@ int main(int argc, char **argv) {
         if (pid < 0) return 3;
         if (pid == 0) {
             close(fd[0]);
-            alarm(5);    // a hanging library call ends as crash:signal:14
+            alarm(3);    // a hanging library call ends as crash:signal:14
             FILE *o = fdopen(fd[1], "w");
             for (size_t i = next; i < ops.size(); ++i) {
                 std::string out = step(ops[i]);
-                alarm(5);
+                alarm(3);
                 fputs(out.c_str(), o);
                 fputc('\n', o);
                 fflush(o);
